@@ -50,6 +50,7 @@ Proof. exact Sep_set. Qed.
 Theorem C06_sep_tight : forall cs, Sep [] [] cs.
 Proof. exact Sep_tight. Qed.
 
+
 (* ---- (c) lexical stability: separation is enough for the recognisers ---- *)
 From Coq Require Import ZArith List.
 From AB Require Tokens TokensStable.
@@ -202,3 +203,17 @@ Proof.
   split; [|split; vm_compute; reflexivity].
   repeat constructor; simpl; intuition congruence.
 Qed.
+
+(* Known finding C06:list-item-removed-next-to-glued-item: Sep is a HYPOTHESIS of the theorems above, and a parsed
+   document need not meet it - `custom "x" 1 "s"2` has no separator between "s" and 2.  Deleting "s" (raw_values.pop(1))
+   removes its gap and its body, and `1` and `2` - apart before - are adjacent tokens afterwards (they lex as `12`).
+   The layout invariant of C03 holds before and after; separation was never there to be preserved. *)
+Theorem C06_sep_delete_glued_refuted :
+  (RepeatedLayout.layout_b 2 glued_doc glued_items = true /\
+  (exists pre pht a m b post, glued_doc = lay pre pht [a; m; b] post /\ vis (c_gap m) = true /\ c_gap b = [] /\
+     ~ Sep [(KWhitespace, [32])] [(KWhitespace, [32])] [a; m; b]) /\
+  fst (del_tokens 2 glued_doc glued_items 1 2) =
+    [mktok 1 KOther [34;120;34]; mktok 2 KPlaceholder []; mktok 3 KWhitespace [32]; mktok 4 KOther [49];
+     mktok 7 KOther [50]; mktok 8 KNewline [10]] /\
+  snd (del_tokens 2 glued_doc glued_items 1 2) = Prelude.Ok tt)%Z.
+Proof. exact del_glued_refuted. Qed.
